@@ -720,3 +720,8 @@ def replay(witness):
     else:
         _, fails = check_parse(inp['fn'], inp['text'], inp.get('radix'))
     return bool(fails)
+
+
+# extension: the literal scanner of the expression parser is the C13 literal model; script-level round trip (DESIGN 13.9)
+from props import c13x  # noqa: E402  pylint: disable=wrong-import-position
+fw.attach_extension(globals(), c13x)
